@@ -519,6 +519,8 @@ def contains(interp, container, item, node=None):
 # =============================================================================== subscripts
 def getitem(interp, v, k, node=None):
     ln = getattr(node, 'lineno', None)
+    if isinstance(v, IteV):
+        return IteV(v.cond, getitem(interp, v.a, k, node), getitem(interp, v.b, k, node))
     if isinstance(v, (list, tuple)):
         if isinstance(k, SliceV):
             if all(x is None or isinstance(x, int) for x in (k.start, k.stop, k.step)):
@@ -1088,8 +1090,16 @@ def b_identity_decorator(interp, args, kwargs, node):
 
 def b_sorted(interp, args, kwargs, node):
     items = iterate(interp, args[0], node)
+    key = kwargs.get('key')
+    rev = bool(kwargs.get('reverse', False))
+    if key is not None:
+        keys = [interp.call(key, [x], {}, node) for x in items]
+        if all(_plain(k) for k in keys):
+            order = sorted(range(len(items)), key=lambda i: keys[i], reverse=rev)
+            return [items[i] for i in order]
+        raise Unsupported("sorted with symbolic keys")
     if all(_plain(x) for x in items):
-        return sorted(items)
+        return sorted(items, reverse=rev)
     raise Unsupported("sorted of symbolic values")
 
 
